@@ -122,11 +122,23 @@ class StubConfig:
             setattr(self, k, build(t))
         for k, x in v['values'].items():
             setattr(self, k, build(x))
+        self._v = None
         for k, f in v['funcs'].items():
             setattr(self, k, self._mk(f))
 
     @staticmethod
     def _mk(f):
+        if 'returns' in f:
+            vals = [build(x) for x in f['returns']]
+            state = {'i': 0}
+
+            def seq(*a, **k):
+                i = state['i']
+                state['i'] += 1
+                if not vals:
+                    raise NotConstructible('environment function called but never called symbolically')
+                return vals[min(i, len(vals) - 1)]
+            return seq
         entries = {tuple(e[:-1]): e[-1] for e in f['entries']}
 
         def fn(*a):
